@@ -565,5 +565,5 @@ def main(tier, seed, replay=None):
     if tier == "thorough":
         run_shards(camp, __name__, "shard", 16, examples=1200)
     else:
-        run_shards(camp, __name__, "shard", 8, examples=100)
+        run_shards(camp, __name__, "shard", 8, examples=250)
     return camp.finish()
